@@ -359,65 +359,70 @@ class Transforms(Sub):
             except (ValueError, TypeError) as exc:
                 out.fail(sig + 'depends-on-dtype', 'to_%s raised %s: %s for a write-protected / integer-typed array' % (name, type(exc).__name__, exc))
         # MatrixArray versions
-        rank = spec['rank']
-        for direction in ('fourier', 'real'):
-            src_space = P.Space.Real if direction == 'fourier' else P.Space.Fourier
-            dst_space = P.Space.Fourier if direction == 'fourier' else P.Space.Real
-            MA = build.sym_matrix_array(spec['m'], n, rank, space=src_space)
-            before = MA.data.copy()
-            fn = dom.MatrixArray_to_fourier if direction == 'fourier' else dom.MatrixArray_to_real
-            vec = dom.to_fourier if direction == 'fourier' else dom.to_real
-            ret = fn(MA)
-            if MA.space != dst_space:
-                out.fail(sig + 'space-flag', 'MatrixArray_to_%s left space=%s' % (direction, MA.space))
-            if MA.data.shape != before.shape:
-                out.fail(sig + 'transform-shape', 'MatrixArray transform changed the data shape')
-                continue
-            for i in range(rank):
-                for j in range(rank):
-                    exp = vec(np.ascontiguousarray(before[:, i, j]))
-                    if not np.array_equal(MA.data[:, i, j], exp, equal_nan=True):
-                        out.fail(sig + 'matrix-vs-vector', 'pair (%d,%d) of MatrixArray_to_%s differs from the vector transform' % (i, j, direction),
-                                 worst=float(np.max(np.abs(MA.data[:, i, j] - exp))))
-            if not np.array_equal(MA.data, np.transpose(MA.data, (0, 2, 1)), equal_nan=True):
-                out.fail(sig + 'symmetry', 'MatrixArray_to_%s broke the symmetry of the matrices' % direction)
-            snap = MA.data.copy()
-            try:
-                fn(MA)
-                out.fail(sig + 'repeat-not-refused', 'MatrixArray_to_%s accepted an array already flagged %s' % (direction, dst_space))
-            except ValueError:
-                if not np.array_equal(MA.data, snap, equal_nan=True) or MA.space != dst_space:
-                    out.fail(sig + 'refusal-modified-array', 'refused transform still changed the array')
-            # and back: round trip on the MatrixArray level
-            inv = dom.MatrixArray_to_real if direction == 'fourier' else dom.MatrixArray_to_fourier
-            inv(MA)
-            grid = dom.r if direction == 'fourier' else dom.k
-            for i in range(rank):
-                for j in range(i, rank):
-                    col = before[:, i, j]
-                    tol = K_ROUND * EPS * lg * snorm(grid * col) / grid + K_ROUND * EPS * np.abs(col)
-                    if np.any(np.abs(MA.data[:, i, j] - col) > tol):
-                        out.fail(sig + 'matrix-roundtrip', 'MatrixArray round trip (%s first) does not restore pair (%d,%d)' % (direction, i, j))
-            if MA.space != src_space:
-                out.fail(sig + 'space-flag', 'space flag not restored by the inverse MatrixArray transform')
-            # an array that is symmetric only to rounding (as products and inverses inside the library are): the documented
-            # behaviour is that symmetry is enforced -- the result is exactly symmetric, each pair the transform of the (a<=b) entry
-            if rank >= 2:
-                MB = build.sym_matrix_array(spec['m'], n, rank, space=src_space)
+        # one Domain object serves MatrixArrays of different rank one after the other (the PRISM object of a 3-type system and of a
+        # 1-type system built on the same Domain): nothing about the first rank may stick to the Domain
+        rank0 = spec['rank']
+        rank_b = {1: 3, 2: 4, 3: 1, 4: 2}[rank0] if max(rank0, {1: 3, 2: 4, 3: 1, 4: 2}[rank0]) <= (2 if self.name == 'long-grids' else 4) else (2 if rank0 == 1 else 1)
+        for rank in (rank0, rank_b):
+            for direction in ('fourier', 'real'):
+                src_space = P.Space.Real if direction == 'fourier' else P.Space.Fourier
+                dst_space = P.Space.Fourier if direction == 'fourier' else P.Space.Real
+                MA = build.sym_matrix_array(spec['m'], n, rank, space=src_space)
+                before = MA.data.copy()
+                fn = dom.MatrixArray_to_fourier if direction == 'fourier' else dom.MatrixArray_to_real
+                vec = dom.to_fourier if direction == 'fourier' else dom.to_real
+                ret = fn(MA)
+                if MA.space != dst_space:
+                    out.fail(sig + 'space-flag', 'MatrixArray_to_%s left space=%s' % (direction, MA.space))
+                if MA.data.shape != before.shape:
+                    out.fail(sig + 'transform-shape', 'MatrixArray transform changed the data shape')
+                    continue
                 for i in range(rank):
-                    for j in range(i):
-                        MB.data[:, i, j] = MB.data[:, i, j] * (1.0 + 3 * EPS) + 1e-300
-                upper = MB.data.copy()
-                fn(MB)
-                if not np.array_equal(MB.data, np.transpose(MB.data, (0, 2, 1)), equal_nan=True):
-                    out.fail(sig + 'symmetry-not-enforced', 'MatrixArray_to_%s of an array that is symmetric only to rounding returns an asymmetric array '
-                             '(max |M_ab - M_ba| = %.3g)' % (direction, float(np.max(np.abs(MB.data - np.transpose(MB.data, (0, 2, 1)))))))
-                else:
+                    for j in range(rank):
+                        exp = vec(np.ascontiguousarray(before[:, i, j]))
+                        if not np.array_equal(MA.data[:, i, j], exp, equal_nan=True):
+                            out.fail(sig + 'matrix-vs-vector', 'pair (%d,%d) of MatrixArray_to_%s differs from the vector transform' % (i, j, direction),
+                                     worst=float(np.max(np.abs(MA.data[:, i, j] - exp))))
+                if not np.array_equal(MA.data, np.transpose(MA.data, (0, 2, 1)), equal_nan=True):
+                    out.fail(sig + 'symmetry', 'MatrixArray_to_%s broke the symmetry of the matrices' % direction)
+                snap = MA.data.copy()
+                try:
+                    fn(MA)
+                    out.fail(sig + 'repeat-not-refused', 'MatrixArray_to_%s accepted an array already flagged %s' % (direction, dst_space))
+                except ValueError:
+                    if not np.array_equal(MA.data, snap, equal_nan=True) or MA.space != dst_space:
+                        out.fail(sig + 'refusal-modified-array', 'refused transform still changed the array')
+                # and back: round trip on the MatrixArray level
+                inv = dom.MatrixArray_to_real if direction == 'fourier' else dom.MatrixArray_to_fourier
+                inv(MA)
+                grid = dom.r if direction == 'fourier' else dom.k
+                for i in range(rank):
+                    for j in range(i, rank):
+                        col = before[:, i, j]
+                        tol = K_ROUND * EPS * lg * snorm(grid * col) / grid + K_ROUND * EPS * np.abs(col)
+                        if np.any(np.abs(MA.data[:, i, j] - col) > tol):
+                            out.fail(sig + 'matrix-roundtrip', 'MatrixArray round trip (%s first) does not restore pair (%d,%d)' % (direction, i, j))
+                if MA.space != src_space:
+                    out.fail(sig + 'space-flag', 'space flag not restored by the inverse MatrixArray transform')
+                # an array that is symmetric only to rounding (as products and inverses inside the library are): the documented
+                # behaviour is that symmetry is enforced -- the result is exactly symmetric, each pair the transform of the (a<=b) entry
+                if rank >= 2:
+                    MB = build.sym_matrix_array(spec['m'], n, rank, space=src_space)
                     for i in range(rank):
-                        for j in range(i, rank):
-                            if not np.array_equal(MB.data[:, i, j], vec(np.ascontiguousarray(upper[:, i, j])), equal_nan=True):
-                                out.fail(sig + 'matrix-vs-vector', 'pair (%d,%d) of a nearly symmetric array is not the transform of its (a<=b) entry' % (i, j))
-        out.nontrivial = bool(np.ptp(f) > 0) and n >= 2
+                        for j in range(i):
+                            MB.data[:, i, j] = MB.data[:, i, j] * (1.0 + 3 * EPS) + 1e-300
+                    upper = MB.data.copy()
+                    fn(MB)
+                    if not np.array_equal(MB.data, np.transpose(MB.data, (0, 2, 1)), equal_nan=True):
+                        out.fail(sig + 'symmetry-not-enforced', 'MatrixArray_to_%s of an array that is symmetric only to rounding returns an asymmetric array '
+                                 '(max |M_ab - M_ba| = %.3g)' % (direction, float(np.max(np.abs(MB.data - np.transpose(MB.data, (0, 2, 1)))))))
+                    else:
+                        for i in range(rank):
+                            for j in range(i, rank):
+                                if not np.array_equal(MB.data[:, i, j], vec(np.ascontiguousarray(upper[:, i, j])), equal_nan=True):
+                                    out.fail(sig + 'matrix-vs-vector', 'pair (%d,%d) of a nearly symmetric array is not the transform of its (a<=b) entry' % (i, j))
+            out.nontrivial = bool(np.ptp(f) > 0) and n >= 2
+        rank = rank0
         out.label('rank=%d' % rank, 'scale=1e%d' % spec.get('scale_exp', 0), 'pow2' if (n & (n - 1)) == 0 else 'non-pow2', 'via-' + ('dr' if 'dr' in spec['domain'] else 'dk'))
         return out
 
